@@ -327,6 +327,7 @@ def correspond(ctx):
 # --------------------------------------------------------------------------- S (real code only)
 GAUSSIAN_KW = {"energy": "sp", "energy_force": "force", "opt": "opt", "scan": "scan", "freq": "freq"}
 ORCA_KW = {"energy": "Energy", "freq": "Freq", "opt": "Opt"}
+BAD_TEMPLATES = ["{", "}", "{}", "{0}", "{nokey}", "{title", "x}{lot}"]
 PROBE = "T={title}|L={lot}|B={obasis_name}|R={run_type}|C={charge}|M={spinmult}|\n{geometry}\nEND"
 
 
@@ -363,7 +364,7 @@ def check_input(case):
         return None if st == "err FileFormatError" else ("input-unknown-program", f"{call} ended with {st}, expected FileFormatError")
     exp = _expected_fields(case, data)
     valid_atoms = all(a[0] in num2sym for a in case["atoms"])
-    if exp is None or not valid_atoms:
+    if exp is None or not valid_atoms or case.get("template") in BAD_TEMPLATES:
         return None if st == "err WriteInputError" else ("input-failure-class", f"{call} ended with {st}, expected WriteInputError")
     if st != "ok":
         return ("input-rejects-valid", f"{call} ended with {st} for a valid object")
@@ -423,6 +424,8 @@ def _search_case(rng):
         case["kwargs"] = {rng.choice(["lot", "obasis_name", "run_type", "charge", "spinmult", "title"]): rng.choice(["KW", 7, "zz"])}
     if rng.random() < 0.5:
         case["template"] = PROBE
+    elif rng.random() < 0.15:
+        case["template"] = rng.choice(BAD_TEMPLATES)
     if rng.random() < 0.05:
         case["atoms"] = atoms + [(rng.choice([0, 119]), 0, 0, 0)]
     return case
@@ -434,7 +437,7 @@ def search(ctx):
         case = _search_case(rng)
         r = check_input(case)
         ctx.count("search-input", case, f"{case['prog'] if case['prog'] in PROGRAMS else 'other'}/"
-                  + ("probe" if case.get("template") else "default") + ("/ok" if r is None else "/" + r[0]),
+                  + ("probe" if case.get("template") == PROBE else "bad-template" if case.get("template") else "default") + ("/ok" if r is None else "/" + r[0]),
                   sample={k: v for k, v in case.items() if k != "atoms"})
         if r:
             ctx.fail(r[0], r[1], {"kind": "input", "case": {**case, "atoms": [list(a) for a in case["atoms"]]}})
